@@ -125,6 +125,17 @@ func registerFSModels(in *Interp) {
 
 type pathStubBox struct{ s pathStub }
 
+// fileInfoModel: os.FileInfo whose only observable is IsDir (C15 second call site).
+type fileInfoModel struct{ dir *Term }
+
+func (f *fileInfoModel) Invoke(in *Interp, p *Path, method string, args []Val) Val {
+	if method == "IsDir" {
+		return f.dir
+	}
+	p.end("unsupported", "FileInfo method "+method)
+	return nil
+}
+
 // ---- symbolic file-system table (C20, C14): EvalSymlinks / Stat answers per path
 
 type fsEntry struct {
@@ -217,6 +228,10 @@ func registerFSTable(in *Interp) {
 		t.entries = append(t.entries, fsEntry{path: a[0].(StringVal), kind: argInt(p, a[1]), target: a[2].(StringVal)})
 		return nil
 	}
+	vxExtra["vxStatIsDir"] = func(in *Interp, p *Path, fr *Frame, a []Val, s ssa.CallInstruction) Val {
+		p.stubs["stat.isdir"] = asTerm(a[0])
+		return nil
+	}
 	vxExtra["vxSetCwd"] = func(in *Interp, p *Path, fr *Frame, a []Val, s ssa.CallInstruction) Val {
 		t := p.fs()
 		t.cwd, t.hasCwd = a[0].(StringVal), true
@@ -275,6 +290,9 @@ func registerFSTable(in *Interp) {
 	in.intr["os.Stat"] = func(in *Interp, p *Path, fr *Frame, a []Val, s ssa.CallInstruction) Val {
 		kind, _ := lookupFS(in, p, a[0].(StringVal))
 		if kind == 0 || kind == 3 {
+			if d, ok := p.stubs["stat.isdir"].(*Term); ok { // set by vxStatIsDir: FileInfo answers IsDir()
+				return TupleVal{IfaceVal{t: errModelType, v: &Pointer{model: &fileInfoModel{dir: d}}}, IfaceVal{}}
+			}
 			return TupleVal{IfaceVal{t: errModelType, v: &Pointer{model: &OpaqueVal{name: "fileinfo"}}}, IfaceVal{}}
 		}
 		return TupleVal{IfaceVal{}, in.mkErr(concStr("stat: no such file or directory"), nil, "notexist")}
